@@ -257,6 +257,19 @@ class BaseModel(SolverMixin, ModelInterface):
                 f'cannot exceed value of `max_iter` ({max_iter})'
             )
 
+        # Error if the period cannot accommodate the model's lags and leads:
+        # negative indexes would otherwise silently wrap around to read values
+        # from the opposite end of the span
+        t_check = t
+        if t_check < 0:
+            t_check += len(self.span)
+
+        if t_check - self.lags < 0 or t_check + self.leads >= len(self.span):
+            raise IndexError(
+                f'Unable to solve position `t` ({t}) in a span of {len(self.span)} period(s): '
+                f'model requires {self.lags} lag(s) and {self.leads} lead(s)'
+            )
+
         # Optionally copy initial values from another period
         if offset:
             t_check = t
